@@ -126,8 +126,6 @@ def agnostic_pitch(pitch, acc, clef_text):
     b = clef_bottom(clef_text) if clef_text else None
     if b is None:
         return None
-    if acc not in ('', '#', '##', '-', '--', '###', '---'):
-        return None
     letter = 'cdefgab'.index(pitch[0].lower())
     octave = 4 + len(pitch) - 1 if pitch[0].islower() else 3 - (len(pitch) - 1)
     d = 7 * octave + letter - (7 * b[1] + b[0]) + (7 * 4 + 2)
@@ -237,8 +235,12 @@ def clefs_in_force(rows):
     return out
 
 
-def features(cell):
+def features(cell, encoding='kern'):
     f = set()
+    asts = [cell.ast] if cell.kind == 'note' else (cell.ast['notes'] if cell.kind == 'chord' else [])
+    for a in asts:
+        if encoding in ('akern', 'aekern') and a['kind'] == 'note' and a['acc'] not in ('', '#', '##', '###', '-', '--', '---'):
+            f.add('natural-or-display')
     if cell.kind == 'barline' and '-' in cell.text:
         f.add('hidden-barline')
     if cell.kind in ('free', 'fcomment', 'interp') and ('@' in cell.text or '·' in cell.text):
@@ -266,7 +268,7 @@ def expected_export(g, selected, encoding='kern', spine_ids=None, spine_types=No
             t = spec_cell(cell, selected, encoding, clefs[r][i])
             if t is None:
                 undefined = True
-            feats |= features(cell)
+            feats |= features(cell, encoding)
             cells.append(t)
             src.append(cell)
         if undefined:
